@@ -18,6 +18,7 @@ from geckolib.async_spa import GeckoAsyncSpa
 from geckolib.async_tasks import AsyncTasks
 from geckolib.async_spa_manager import GeckoAsyncSpaMan
 from geckolib.automation.async_facade import GeckoAsyncFacade
+from geckolib.spa_state import GeckoSpaState
 from geckolib.driver.udp_protocol_handler import GeckoUdpProtocolHandler
 from geckolib.driver.protocol.version import GeckoVersionProtocolHandler
 from geckolib.driver.protocol.unhandled import GeckoUnhandledProtocolHandler
@@ -684,3 +685,75 @@ def keyed_cancellation_reaches_every_live_task_of_the_domain(n: int, k0: bool, k
         ensures("every-live-helper-task-is-cancelled", implies(both(is_loc[i], not fin[i]), tasks[i].cancelled))
         ensures("tasks-of-other-domains-are-left-alone", implies(not is_loc[i], not tasks[i].cancelled))
     cover("finished-task-in-front-of-a-helper", both(n >= 2, f0, k1, not f1))
+
+
+# ------------------------------------- reset from ANOTHER task while the connect phase is in flight (not cancelled)
+class Other:
+    man = None
+    at = -1
+    count = 0
+    done = False
+
+
+async def reset_from_another_task(what):
+    """at the k-th suspension point of the handshake another task (user, reconnect button, recovery) resets the manager;
+    the handshake coroutine is NOT cancelled by that and resumes afterwards"""
+    i = Other.count
+    Other.count = i + 1
+    if i == Other.at and not Other.done:
+        Other.done = True
+        await Other.man.async_reset()
+
+
+@summary("geckolib.automation.async_facade:GeckoAsyncFacade.__init__", name="facade_stand_in", note="stand-in constructor (C11 proves the real one)")
+def facade_stand_in(self, spa, taskman, **kwargs):
+    self._spa = spa
+    self._taskman = taskman
+
+
+@harness(prop="C10", target="geckolib.async_spa_manager:GeckoAsyncSpaMan.async_connect_to_spa", uses=["engine_step", "transfer_step", "facade_stand_in"],
+         name="reset_from_another_task_during_the_handshake_leaks_nothing")
+async def reset_from_another_task_during_the_handshake_leaks_nothing(k: int):
+    """the real connect phase (async_connect_to_spa -> GeckoAsyncSpa.connect) with the engine and the transfer as stand-ins"""
+    requires(both(0 <= k, k <= 26))
+    k = concrete_cases(k, 0, 26)
+    arm(-1)
+    m = new(PumpMan)
+    m._tasks = []
+    m._client_id = b"IOSx"
+    m._spa_state = GeckoSpaState.LOCATED_SPAS
+    m._spa_descriptors = []
+    m._spa_address = None
+    m._spa_identifier = "SPA1"
+    m._spa_name = "spa"
+    m._status_sensor = None
+    m._reconnect_button = None
+    m._ping_sensor = None
+    m._radio_sensor = None
+    m._channel_sensor = None
+    m._facade = None
+    m._spa = None
+    Other.man = m
+    Other.at = k
+    Other.count = 0
+    Other.done = False
+    set_suspend_hook(reset_from_another_task)
+    raised = False
+    try:
+        await m.async_connect_to_spa(Descr())
+    except asyncio.CancelledError:
+        raised = True
+    except Exception:
+        raised = True
+    requires(Other.done)                    # k beyond the last await of this path: no reset happened, not this harness's case
+    set_suspend_hook(None)
+    if raised:
+        await m.async_reset()               # what the sequence pump does when the phase raises
+    if m._facade is None:
+        # the attempt was abandoned: whatever it opened or started is released, whichever await the reset landed on
+        if m._spa is not None:
+            await m.async_reset()
+        ensures("every-endpoint-of-the-abandoned-connection-is-closed", all_closed())
+        ensures("background-tasks-of-the-abandoned-connection-are-cancelled", tasks_cancelled("SPA:"))
+    ensures("at-most-one-endpoint-per-attempt", len(Net.endpoints) <= 1)
+    cover("reset-before-the-first-request", k <= 2)
